@@ -21,6 +21,11 @@ structure DInv (P : Prog) (s : St) (g : G) : Prop where
 theorem dinv_init (P : Prog) : DInv P St.init {} := by
   constructor <;> simp [St.init]
 
+theorem started_sunk {s : St} {g : G} {π : List Nat} (x : List Nat) (h : Started s g π) : Started s { g with sunk := x } π := h
+
+theorem dinv_sunk {P : Prog} {s : St} {g : G} (x : List Nat) (h : DInv P s g) : DInv P s { g with sunk := x } :=
+  ⟨h.invNodup, h.invStarted, h.busyInv, h.created, h.pending, h.invHandled, h.invInit, h.invSpawn⟩
+
 theorem inv_unique {g : G} (hn : (g.inv.map (·.1)).Nodup) {π : List Nat} {o1 o2 : List Op}
     (h1 : (π, o1) ∈ g.inv) (h2 : (π, o2) ∈ g.inv) : o1 = o2 := by
   have := nodup_map_inj (·.1) hn h1 h2 rfl
@@ -94,7 +99,9 @@ theorem dinv_step (P : Prog) (l : Label) (s s' : St) (g : G) (hI : Inv s) (hF : 
     (hB : BInv s g) (hU : UInv P s g) (h : DInv P s g) (hs : step P l s = some s') : DInv P s' (gstep P l s g) := by
   cases l with
   | push t0 i =>
-    rw [gstep_other P s g _ (Or.inl ⟨t0, i, rfl⟩)]
+    obtain ⟨sunk', hsunk'⟩ := gstep_push_eq P s g t0 i
+    rw [hsunk']
+    apply dinv_sunk
     obtain ⟨sub, hsub, hst, hcase⟩ := step_push_eq hs
     have hsubm : sub ∈ (s.task t0).cur := List.mem_of_getElem? hsub
     have hsb := hB.subs t0 sub hsubm
@@ -149,7 +156,7 @@ theorem dinv_step (P : Prog) (l : Label) (s s' : St) (g : G) (hI : Inv s) (hF : 
           · exact Or.inl (keep s'.task htask e hee hl)
           · exact Or.inr (by rw [ha]; simp [hr])
   | opDone t0 =>
-    rw [gstep_other P s g _ (Or.inr (Or.inl ⟨t0, rfl⟩))]
+    rw [gstep_other P s g _ (Or.inl ⟨t0, rfl⟩)]
     obtain ⟨hph, hne, hall, htask, sl, _⟩ := step_opDone_eq hs
     apply dinv_quiet hB h sl.nextEid sl.handled sl.inits
     · intro t ht; rw [htask] at ht
@@ -171,7 +178,7 @@ theorem dinv_step (P : Prog) (l : Label) (s s' : St) (g : G) (hI : Inv s) (hF : 
         · exact Or.inl ⟨t, x, by rw [htask]; simp only [upd_other _ _ htt]; exact hx, hxe, hxs⟩
       · exact Or.inr (sl.arrLog ▸ hr)
   | finish t0 =>
-    rw [gstep_other P s g _ (Or.inr (Or.inr ⟨t0, rfl⟩))]
+    rw [gstep_other P s g _ (Or.inr ⟨t0, rfl⟩)]
     obtain ⟨hph, hcur, hrest, hnb, hcur', hoth, sl, _⟩ := step_finish_eq hs
     apply dinv_quiet hB h sl.nextEid sl.handled sl.inits
     · intro t ht
